@@ -179,4 +179,112 @@ theorem users_linebreak_name_refused (E : Env) (db : UsersDb) (id : Nat) (u : Us
 example : (loadUsers E0 none (dumpUsers ⟨[(1, { name := "x\n  capability owner".toList })], 1⟩)).1.db.users
     = [(1, { name := "x".toList, caps := ["owner".toList] })] := by decide
 
+/-! ## channels.conf -/
+
+/-- element-wise relation between two lists of the same length -/
+inductive Rel2 {α β : Type} (R : α → β → Prop) : List α → List β → Prop
+  | nil : Rel2 R [] []
+  | cons {a : α} {b : β} {as : List α} {bs : List β} : R a b → Rel2 R as bs → Rel2 R (a :: as) (b :: bs)
+
+/-- two channel records hold the same information: flags equal, the same capability *set*
+(the reloaded one without duplicates), the same bans and ignores up to order -/
+def ChanSame (a b : Chan) : Prop :=
+  a.lobotomized = b.lobotomized ∧ a.defaultAllow = b.defaultAllow ∧
+  a.caps.Nodup ∧ (∀ x, x ∈ a.caps ↔ x ∈ b.caps) ∧ a.bans.Perm b.bans ∧ a.ignores.Perm b.ignores
+
+theorem loadedChan_same (c : Chan) (h : storableChan c = true) : ChanSame (loadedChan c) c := by
+  have hc := storableChan_elim h
+  obtain ⟨hn, hm⟩ := loadedCaps_equiv c.caps hc.caps
+  exact ⟨rfl, rfl, hn, hm, sortBy_perm _ _, sortBy_perm _ _⟩
+
+/-- **Channels round trip.**  For every storable channel database the reload yields, for every
+channel (in name order, under the same key), a record with the same flags, the same set of
+capabilities, the same bans and ignores with their expiry; the loader does not raise and
+`IrcChannelCreator.name` is `None` again. -/
+theorem channels_roundtrip (E : Env) (db : ChannelsDb) (h : storableChans E db = true) :
+    Rel2 (fun a b => a.1 = b.1 ∧ ChanSame a.2 b.2)
+      (loadChannels E none (dumpChannels db)).1.db (sortedChans db) ∧
+    (sortedChans db).Perm db ∧
+    (loadChannels E none (dumpChannels db)).2 = none ∧
+    (loadChannels E none (dumpChannels db)).1.cname = none := by
+  obtain ⟨h1, h2, h3⟩ := loadChannels_dumpChannels E db h
+  refine ⟨?_, sortBy_perm _ _, h3, h2⟩
+  rw [h1]
+  have hall : ∀ p ∈ sortedChans db, storableChan p.2 = true := by
+    intro p hp
+    simp only [storableChans, Bool.and_eq_true, List.all_eq_true] at h
+    exact (h.2 p hp).2
+  generalize sortedChans db = l at hall
+  induction l with
+  | nil => exact Rel2.nil
+  | cons p ps ih =>
+    exact Rel2.cons ⟨rfl, loadedChan_same p.2 (hall p (by simp))⟩ (ih (fun q hq => hall q (by simp [hq])))
+
+def exampleChans : ChannelsDb :=
+  [("#z[".toList, { defaultAllow := false, caps := ["-voice".toList, "op".toList, "-halfop".toList, "x".toList, "-protected".toList],
+                    bans := [("a!b@c".toList, 500), ("*!*@d".toList, 0)], ignores := [("x!y@z".toList, 7)] }),
+   ("#a".toList, { lobotomized := true, caps := defaultChanCaps })]
+
+example : storableChans E0 exampleChans = true := by decide
+
+/-- finding C16-channel-default-anticapability: a removed default anti-capability is back -/
+theorem channels_default_anticap_returns :
+    (loadChannels E0 none (dumpChannels [("#c".toList,
+        { caps := ["-halfop".toList, "-voice".toList, "-protected".toList] })])).1.db =
+      [("#c".toList, { caps := ["-op".toList, "-halfop".toList, "-voice".toList, "-protected".toList] })] := by
+  decide
+
+/-- finding C16-expiry-beyond-2p53: expiries go through a double -/
+theorem channels_expiry_rounded :
+    (loadChannels E0 none (dumpChannels [("#c".toList,
+        { caps := defaultChanCaps, bans := [("a!b@c".toList, 9007199254740993)] })])).1.db =
+      [("#c".toList, { caps := defaultChanCaps, bans := [("a!b@c".toList, 9007199254740992)] })] := by
+  decide
+
+/-! ## networks.conf -/
+
+def NetSame (a b : Net) : Prop := a.sts.Perm b.sts ∧ a.last.Perm b.last
+
+/-- **Networks round trip**: every network comes back under its name with the same STS policies
+and disconnect times; no exception; holds whatever `IrcNetworkCreator.name` was left by earlier
+loads. -/
+theorem networks_roundtrip (E : Env) (nname0 : Option Str) (db : NetworksDb) (h : storableNets E db = true) :
+    Rel2 (fun a b => a.1 = b.1 ∧ NetSame a.2 b.2)
+      (loadNetworks E nname0 (dumpNetworks db)).1.db (sortedNets db) ∧
+    (sortedNets db).Perm db ∧
+    (loadNetworks E nname0 (dumpNetworks db)).2 = none := by
+  obtain ⟨h1, h2⟩ := loadNetworks_dumpNetworks E nname0 db h
+  refine ⟨?_, sortBy_perm _ _, h2⟩
+  rw [h1]
+  generalize sortedNets db = l
+  induction l with
+  | nil => exact Rel2.nil
+  | cons p ps ih => exact Rel2.cons ⟨rfl, sortBy_perm _ _, sortBy_perm _ _⟩ ih
+
+def exampleNets : NetworksDb :=
+  [("libera".toList, { sts := [("b.example".toList, "duration=300,port=6697".toList), ("a.example".toList, "port=1".toList)],
+                       last := [("b.example".toList, 1700000000)] }),
+   ("efnet".toList, { last := [("irc.x".toList, 5)] })]
+
+example : storableNets E0 exampleNets = true := by decide
+
+/-- outside Storable: a record without any line is overwritten by the next header (it carries no
+policy, so nothing observable through `getNetwork` is lost; the harness canonicalises it away) -/
+theorem networks_empty_record_dropped :
+    (loadNetworks E0 none (dumpNetworks [("a".toList, {}), ("b".toList, { last := [("s".toList, 1)] })])).1.db =
+      [("b".toList, { last := [("s".toList, 1)] })] := by decide
+
+/-! ## ignores.conf -/
+
+/-- **Ignores round trip**: exactly the unexpired entries come back (`flush` drops the others). -/
+theorem ignores_roundtrip (E : Env) (db : IgnoresDb) (h : storableIgnores E.now db = true) :
+    loadIgnores (dumpIgnores E db) = db.filter (unexpired E.now) :=
+  loadIgnores_dumpIgnores E db h
+
+example : storableIgnores 1000 [("a!b@c".toList, 0), ("*!*@x".toList, 2000), ("#old!x@y z".toList, 5)] = true := by decide
+
+/-- finding C16-ignore-hostmask-hash -/
+theorem ignores_hash_hostmask_lost :
+    loadIgnores (dumpIgnores E0 [("#a!b@c".toList, 0), ("x!y@z".toList, 0)]) = [("x!y@z".toList, 0)] := by decide
+
 end C16
